@@ -55,6 +55,29 @@ def select (k : Nat) (sigs : List Sig) : Except Nat (List Sig) :=
   let st := sigs.foldl stepSig {}
   phase2 k st.removal st.holders [] 0
 
+/-! ### the repaired code: valid copies of one signature are merged before the arbitration -/
+
+/-- sorted insertion without repetition (`sort_unstable` + `dedup` of the code, element by element) -/
+def insIdx (i : Nat) : List Nat → List Nat
+  | [] => [i]
+  | j :: r => if i < j then i :: j :: r else if i = j then j :: r else j :: insIdx i r
+
+/-- union of a sorted, repetition-free list with any list -/
+def mergeIdx (a b : List Nat) : List Nat := b.foldl (fun acc i => insIdx i acc) a
+
+/-- `valid_sigs[position]` gets the union of the indices; a first copy is pushed at the end -/
+def mergeInto (s : Sig) : List Sig → List Sig
+  | [] => [{ s with idxs := mergeIdx [] s.idxs }]
+  | t :: r => if t.key = s.key then { t with idxs := mergeIdx t.idxs s.idxs } :: r else t :: mergeInto s r
+
+def normStep (acc : List Sig) (s : Sig) : List Sig := if s.valid then mergeInto s acc else acc
+
+/-- first loop of `select_valid_signatures_for_k_indices` after the `fix:` commit -/
+def normalize (sigs : List Sig) : List Sig := sigs.foldl normStep []
+
+/-- `select_valid_signatures_for_k_indices` as it is now -/
+def selectMerged (k : Nat) (sigs : List Sig) : Except Nat (List Sig) := select k (normalize sigs)
+
 def s1 : Sig := { sigma := 7, party := 0, signer := 0, idxs := [1, 4], valid := true }
 def s2 : Sig := { sigma := 3, party := 1, signer := 1, idxs := [4, 5], valid := true }
 
